@@ -52,11 +52,18 @@ def jobs(tier, seed):
         p = gen.random_program(rng, alpha, steps, depth, types='FSE', p_sub=0.35, p_rel=0.0 if implicit else 0.35, reps=reps, sub_rel=False)
         if gen.count_leaves(p) > 24:
             continue
-        out.append({'prog': p, 'implicit': implicit})
+        out.append({'prog': p, 'implicit': implicit, 'preread': i % 2 == 1})
     dmax, cmax = (3, 2) if tier == 'quick' else (3, 4)
     for d in range(2, dmax + 1):
         for cycles in range(0, cmax + 1):
             out.append({'library': {'kind': 'full', 'd': d, 'cycles': cycles}})
+    # index clauses only (default durations, one path each) for more cycles: the constructors read indices while they build
+    for d in (2, 3) if tier == 'quick' else (2, 3, 4):
+        for cycles in range(cmax + 1, 6 if tier == 'quick' else 8):
+            for preread in (False, True):
+                out.append({'library': {'kind': 'full', 'd': d, 'cycles': cycles}, 'index_only': True, 'preread': preread})
+        for cycles in (1, 2, 3):
+            out.append({'library': {'kind': 'simplified', 'd': d, 'cycles': cycles}, 'index_only': True, 'preread': True})
     out.append({'library': {'kind': 'calib', 'qubits': [0, 1], 'type': 'QUTRIT'}})
     out.append({'library': {'kind': 'multi', 'd': 2, 'rounds': [1, 0], 'desc': {'chain': 3}}})
     return out
@@ -104,7 +111,26 @@ def check_time_order(ctx, meas, label, info):
     ctx.check(label, s_and(*conds), dict(info, n_pairs=len(conds)))
 
 
+def preread(c):
+    """A user who looks at the indices before applying the modifiers (must not change what is reported afterwards)."""
+    for o in c.operations:
+        if isinstance(o, IAcquisitionOperation):
+            o.circuit_level_acquisition_index, o.acquisition_index
+    for q in QUBITS:
+        c.get_acquisition_indices(q)
+
+
 def run(ctx, params):
+    if params.get('index_only'):
+        c = lib.build(params['library'])
+        if params.get('preread'):
+            preread(c)
+        u = c.apply_modifiers()
+        ops = u.operations
+        info = {'spec': params['library'], 'preread': params.get('preread')}
+        meas = check_indices(ctx, u, ops, info)
+        check_record(ctx, u, meas, info)
+        return
     g = cm.Globals(ctx)
     with g.override():
         if 'library' in params:
@@ -117,9 +143,11 @@ def run(ctx, params):
             check_time_order(ctx, meas, 'C07.time_order.library', info)
             return
         built = cm.build(ctx, params['prog'])
+        if params.get('preread'):
+            preread(built.circuit)
         u = built.circuit.apply_modifiers()
         ops = u.operations
-        info = {'implicit': params['implicit']}
+        info = {'implicit': params['implicit'], 'preread': params.get('preread')}
         meas = check_indices(ctx, u, ops, info)
         check_record(ctx, u, meas, info)
         if params['implicit']:
